@@ -50,6 +50,40 @@ class _Factory(Model):
         self.register_agent_factory("worker", lambda agent_id, model, properties: _Worker(agent_id, model, properties))
     def end_round(self, time, sim_round, step):
         RERUN_LOG[time] = [(a.state, a.get_property_value("load")) for a in self.agents]
+        TWO_LOG[(len(self.agents), time)] = [(a.state, a.get_property_value("load")) for a in self.agents]
+
+TWO_LOG = {}
+
+def run_two(case):
+    """two scenarios with different populations, registered on one manager built from a live model object and simulated in ONE
+    run_scenarios call: each is reported from its own population"""
+    from BPTK_Py import bptk as Bptk
+    n_small, n_large, stop = case
+    TWO_LOG.clear()
+    b = Bptk()
+    try:
+        b.register_scenario_manager({"smT": {"type": "abm", "model": _Factory(name="factory2", data_collector=DataCollector()), "scenarios": {
+            "small": {"runspecs": {"starttime": 1, "stoptime": stop, "dt": 1}, "properties": {}, "agents": [{"name": "worker", "count": n_small}]},
+            "large": {"runspecs": {"starttime": 1, "stoptime": stop, "dt": 1}, "properties": {}, "agents": [{"name": "worker", "count": n_large}]}}}})
+        df = b.run_scenarios(return_format="df", scenario_managers=["smT"], scenarios=["small", "large"], agents=["worker"], agent_states=["idle", "busy"])
+        for sc, n_ in (("small", n_small), ("large", n_large)):
+            for (k, t), pop in sorted(TWO_LOG.items()):
+                if k != n_:
+                    continue
+                for st in ("idle", "busy"):
+                    want = len([1 for (s_, l_) in pop if s_ == st])
+                    col = "smT_%s_worker_%s" % (sc, st)
+                    if col not in df.columns:
+                        return "run_scenarios over two scenarios returns no column %s (columns %r)" % (col, list(df.columns)[:6])
+                    got = float(df[col][t])
+                    if not close(got, float(want)):
+                        return "two scenarios in one call: %s reports %r agents in state %s at t=%r, its own population (%d workers) has %d" % (sc, got, st, t, n_, want)
+        return None
+    finally:
+        try:
+            b.destroy()
+        except Exception:
+            pass
 
 def run_rerun(case):
     """through bptk.run_scenarios (hybrid runner): the statistics of a run are those of THAT run's population, also when
@@ -192,15 +226,15 @@ def main():
     t_end = time.time() + hint.get('budget_s', 20)
     n = 0
     failures = []
-    for rc in [(5, 3, 6), (2, 4, 4)]:
+    for fn, rc in [('run_rerun', (5, 3, 6)), ('run_rerun', (2, 4, 4)), ('run_two', (2, 5, 5)), ('run_two', (4, 1, 4))]:
         n += 1
         try:
-            bad = run_rerun(rc)
+            bad = globals()[fn](rc)
         except Exception as e:
             bad = None      # harness trouble is never a violation
         if bad:
-            body = PRELUDE + '\ncase = %r\nbad = run_rerun(case)\nprint("FAIL: " + bad if bad else "PASS")\nsys.stdout.flush()\nos._exit(1 if bad else 0)\n' % (rc,)
-            failures.append(dict(what=bad, script=write_replay('C13', 'rerun', body), known=None))
+            body = PRELUDE + '\ncase = %r\nbad = %s(case)\nprint("FAIL: " + bad if bad else "PASS")\nsys.stdout.flush()\nos._exit(1 if bad else 0)\n' % (rc, fn)
+            failures.append(dict(what=bad, script=write_replay('C13', fn, body), known=None))
             break
     while time.time() < t_end and not failures:
         case = gen(rnd)
